@@ -9,6 +9,7 @@ import shutil
 import subprocess
 import sys
 import tempfile
+import time
 from concurrent.futures import ThreadPoolExecutor
 
 VERIF = os.path.dirname(os.path.dirname(os.path.abspath(__file__)))
@@ -121,12 +122,27 @@ def build(repo=REPO, verbose=True, keep_bc=True):
     d = os.path.join(CACHE, key)
     meta = os.path.join(d, 'meta.json')
     if os.path.exists(meta):
+        try:
+            os.utime(d, None)        # last use (the pruning below is least-recently-used)
+        except OSError:
+            pass
         return d
     os.makedirs(CACHE, exist_ok=True)
-    # prune old cache entries (disk is limited): keep the few most recent ones (concurrent runs on scratch trees)
-    olds = sorted((os.path.getmtime(os.path.join(CACHE, o)), o) for o in os.listdir(CACHE) if o != key and not o.startswith('spqa-'))
-    for _, old in olds[:-12] if len(olds) > 12 else []:
-        shutil.rmtree(os.path.join(CACHE, old), ignore_errors=True)
+    # prune old cache entries (disk is limited): least recently used first, never one used in the last two hours (checks
+    # of several trees may run concurrently and read their entry for a long time), keep at least the 12 most recent
+    now = time.time()
+    olds = []
+    for o in os.listdir(CACHE):
+        if o == key:
+            continue
+        try:
+            olds.append((os.path.getmtime(os.path.join(CACHE, o)), o))
+        except OSError:
+            pass
+    olds.sort()
+    for mt, old in olds[:-12] if len(olds) > 12 else []:
+        if now - mt > 7200:
+            shutil.rmtree(os.path.join(CACHE, old), ignore_errors=True)
     scratch = tempfile.mkdtemp(prefix='spqa-build-')
     tmpd = tempfile.mkdtemp(prefix='spqa-units-', dir=CACHE)
     try:
@@ -143,9 +159,16 @@ def build(repo=REPO, verbose=True, keep_bc=True):
              'flags': {os.path.relpath(f, os.path.join(repo, 'spqlios')): _ir_flags(c) for f, c in units.items()},
              'passes': PASSES}
         json.dump(m, open(os.path.join(tmpd, 'meta.json'), 'w'), indent=1)
-        if os.path.exists(d):
-            shutil.rmtree(d)
-        os.rename(tmpd, d)
+        if os.path.exists(os.path.join(d, 'meta.json')):
+            pass                      # a concurrent run of the same tree finished first: keep its entry (it may be in use)
+        else:
+            if os.path.exists(d):
+                shutil.rmtree(d, ignore_errors=True)
+            try:
+                os.rename(tmpd, d)
+            except OSError:
+                if not os.path.exists(os.path.join(d, 'meta.json')):
+                    raise
         if verbose:
             print('[build] %d C units, %d asm units -> %s' % (len(cunits), len(asm), d), file=sys.stderr)
     finally:
